@@ -30,6 +30,10 @@ type Step struct {
 type SrcSpec struct {
 	Mode string `json:"mode"`           // "sync" | "async" | "timed" | "hot"
 	Ctor string `json:"ctor,omitempty"` // "unsafe" (default) | "safe" | "default" | "eventually"
+	// CtorAPI: which of the equivalent constructor functions builds the source: 0 the ...WithContext one,
+	// 1 the plain one (subscribe function without a context: the source emits with context.Background()),
+	// 2 NewObservableWithConcurrencyMode
+	CtorAPI int `json:"ctor_api,omitempty"`
 	// TermFirst: with several producers only producer 0 issues the script's terminal notification; the
 	// others emit the values only (so the one terminal call can collide with somebody else's Next)
 	TermFirst bool `json:"term_first,omitempty"`
@@ -745,6 +749,29 @@ func (s *Src) Obs() ro.Observable[int] {
 			sub.relStep = s.env.Step()
 			s.TeardownAt = append(s.TeardownAt, s.env.Step())
 			s.env.K.Log(fmt.Sprintf("src%d teardown #%d", s.ID, n))
+		}
+	}
+	plain := func(dest ro.Observer[int]) ro.Teardown { return fn(context.Background(), dest) }
+	switch s.Spec.CtorAPI {
+	case 1:
+		switch s.Spec.Ctor {
+		case "safe":
+			return ro.NewSafeObservable(plain)
+		case "default":
+			return ro.NewObservable(plain)
+		case "eventually":
+			return ro.NewEventuallySafeObservable(plain)
+		default:
+			return ro.NewUnsafeObservable(plain)
+		}
+	case 2:
+		switch s.Spec.Ctor {
+		case "safe", "default":
+			return ro.NewObservableWithConcurrencyMode(fn, ro.ConcurrencyModeSafe)
+		case "eventually":
+			return ro.NewObservableWithConcurrencyMode(fn, ro.ConcurrencyModeEventuallySafe)
+		default:
+			return ro.NewObservableWithConcurrencyMode(fn, ro.ConcurrencyModeUnsafe)
 		}
 	}
 	switch s.Spec.Ctor {
